@@ -61,6 +61,7 @@ func main() {
 		broken("contracts-package", "package internal/executor/contracts not loaded")
 	} else {
 		extractTxFsm(contracts, genDir)
+		extractGovPriority(contracts, genDir)
 		if exe := byPath["github.com/meshplus/bitxhub/internal/executor"]; exe != nil {
 			extractContractMethods(exe, contracts, genDir)
 		} else {
